@@ -7,11 +7,11 @@ use write_fonts::read::{types::GlyphId, FontRef, TableProvider};
 
 use super::vf::{self, q14, Ivs};
 
-fn ot_round(v: f64) -> f64 {
+pub fn ot_round(v: f64) -> f64 {
     (v + 0.5).floor()
 }
 
-fn f(v: &Value) -> f64 {
+pub fn f(v: &Value) -> f64 {
     v.as_f64().unwrap_or(0.0)
 }
 
@@ -104,13 +104,13 @@ pub struct Out {
 }
 
 impl Out {
-    fn viol(&mut self, prop: &'static str, msg: String) {
+    pub fn viol(&mut self, prop: &'static str, msg: String) {
         let l = self.v.entry(prop).or_default();
         if l.len() < 40 {
             l.push(msg);
         }
     }
-    fn stat(&mut self, k: &str, n: f64) {
+    pub fn stat(&mut self, k: &str, n: f64) {
         *self.stats.entry(k.to_string()).or_default() += n;
     }
 }
@@ -708,6 +708,8 @@ pub fn check(data: &[u8], man: &Value, opts: &[String]) -> Out {
             }
         }
     }
+    // ---------------------------------------------------------------- C09 / C10
+    super::layout::check(&font, man, &gid_of, &axes, &mut out);
     out
 }
 
